@@ -25,9 +25,14 @@ isinstance(val, tuple) / isinstance(val, list)      -> case split on `Val.tup` /
 assert len(val) == N   (val a tuple)                -> pattern `.tup [x0, ..., x(N-1)]`, any other length
                                                        `.error .assertion`; N is the representation
                                                        invariant of stored tuples used by `__getitem__`
-val[i]  (constant i, tuple of known length)         -> `xi`
+val[i]  (constant i, tuple of known length)         -> `xi` on a path where side i is present (`some xi`),
+                                                       `None` on a path where it is missing (`none`); a tuple of
+                                                       known length N is executed on all 2^N present/missing paths
+None                                                -> a missing side (`none`), only as a tuple element
+e is None / e is not None  (e a tuple element)      -> evaluated on the path
+-e  (e a missing side)                              -> rejected: `-None` is a TypeError at run time (finding F56)
 -e  (e an atom)   /  -val  (val an atom)            -> `Atom.neg e`  /  `.atom (Atom.neg x)`
-(e0, e1, ...)                                       -> `.tup [e0, e1, ...]`
+(e0, e1, ...)                                       -> `.tup [some e0, none, ...]` (each ei an atom or None)
 [-x for x in val] / [x for x in val]  (val a list)  -> `.list (xs.map Atom.neg)` / `.list xs`
 X if c else Y ,  if / elif / else                   -> the branch taken on the path
 self.__d[var] = e                                   -> `a.d.set var e`
@@ -91,9 +96,20 @@ class AtomT:  # something with a unary minus
         self.lean = lean
 
 
+class NoneT:  # Python's None as a tuple element (a missing side)
+    lean = "none"
+
+
 class WholeVal:  # the value argument / the stored value
     def __init__(self, kind, elems=None):
         self.kind, self.elems = kind, elems  # kind: atom | tup | list ; elems: tuple element terms or None
+        self.syms = None  # symbolic values of the tuple elements (AtomT / NoneT), parallel to elems
+
+    def fill(self, n, nones=None):
+        """a tuple of known length n; nones[i] = side i is missing on this path"""
+        nones = nones if nones is not None else (False,) * n
+        self.syms = [NoneT() if nones[i] else AtomT("x%d" % i) for i in range(n)]
+        self.elems = ["none" if nones[i] else "some x%d" % i for i in range(n)]
 
     def lean(self):
         if self.kind == "atom":
@@ -118,8 +134,9 @@ class Stop(Exception):
 class Exec:
     """one path through one method"""
 
-    def __init__(self, tr, sign=None, val=None, lenok=True, tuple_len=None, sv=None):
+    def __init__(self, tr, sign=None, val=None, lenok=True, tuple_len=None, sv=None, nones=None):
         self.tr, self.sign, self.val, self.lenok, self.tuple_len, self.sv = tr, sign, val, lenok, tuple_len, sv
+        self.nones = nones
         self.env = {}
         self.effects = []
         self.asserted_len = None
@@ -132,6 +149,8 @@ class Exec:
             return self.env[n.id]
         if isinstance(n, ast.Constant) and isinstance(n.value, bool):
             return n.value
+        if isinstance(n, ast.Constant) and n.value is None:
+            return NoneT()
         if isinstance(n, ast.Constant) and isinstance(n.value, int):
             return n.value
         if isinstance(n, ast.UnaryOp) and isinstance(n.op, ast.USub):
@@ -140,6 +159,8 @@ class Exec:
                 return -v
             if isinstance(v, AtomT):
                 return AtomT("(Atom.neg %s)" % v.lean)
+            if isinstance(v, NoneT):
+                raise TranslationError("unary minus applied to a missing (None) tuple side: TypeError at run time (F56)")
             if isinstance(v, WholeVal) and v.kind == "atom":
                 return ValT("(.atom (Atom.neg x))")
             raise TranslationError("unary minus on a non-atom (%s)" % type(v).__name__)
@@ -160,8 +181,8 @@ class Exec:
                     b = SignT("Sign.pos" if b == 1 else "Sign.neg", b)
                 if isinstance(b, SignT):
                     return Pair(elts[0], b)
-            if all(isinstance(e, AtomT) for e in elts):
-                return ValT("(.tup [%s])" % ", ".join(e.lean for e in elts))
+            if all(isinstance(e, (AtomT, NoneT)) for e in elts):
+                return ValT("(.tup [%s])" % ", ".join("none" if isinstance(e, NoneT) else "some " + e.lean for e in elts))
             raise TranslationError("unsupported tuple display " + _dump(n))
         if isinstance(n, ast.ListComp):
             return self.listcomp(n)
@@ -184,6 +205,9 @@ class Exec:
 
     def compare(self, left, op, right):
         l, r = self.ev(left), self.ev(right)
+        # `e is None` / `e is not None` for a tuple element
+        if isinstance(op, (ast.Is, ast.IsNot)) and isinstance(r, NoneT) and isinstance(l, (AtomT, NoneT)):
+            return isinstance(l, NoneT) == isinstance(op, ast.Is)
         # membership in the private dict
         if isinstance(op, ast.In) and isinstance(l, Name) and r == "@d":
             return ("has", l.lean)
@@ -236,7 +260,7 @@ class Exec:
         if isinstance(v, WholeVal) and v.kind == "tup" and isinstance(n.slice, ast.Constant) and isinstance(n.slice.value, int):
             if v.elems is None or not 0 <= n.slice.value < len(v.elems):
                 raise TranslationError("tuple element %r read without a known tuple length" % n.slice.value)
-            return AtomT(v.elems[n.slice.value])
+            return v.syms[n.slice.value]
         raise TranslationError("unsupported subscript " + _dump(n))
 
     def call(self, n):
@@ -299,7 +323,9 @@ class Exec:
                     self.asserted_len = n
                     if not self.lenok:
                         raise Stop(("error", "assertion"))
-                    l[1].elems = ["x%d" % i for i in range(n)]
+                    if self.nones is not None and len(self.nones) != n:
+                        raise TranslationError("asserted tuple length differs between paths")
+                    l[1].fill(n, self.nones)
                     return
             raise TranslationError("unsupported assert " + _dump(t))
         if isinstance(st, ast.Assign) and len(st.targets) == 1:
@@ -340,26 +366,48 @@ class Exec:
 
 
 
+def _none_patterns(n):
+    import itertools
+
+    return list(itertools.product((False, True), repeat=n))
+
+
 def _run_paths(fn, kinds, tuple_len=None, need_val_arg=True):
-    """execute `fn` on every (sign, kind) path; returns {(sign, kind, lenok): (outcome, exec)}"""
+    """execute `fn` on every (sign, kind) path; returns {(sign, kind, lenok, nones): (outcome, exec)};
+    `nones` = None for non-tuples / rejected tuples, else the present/missing pattern of the sides.
+    For `__setitem__` (tuple_len unknown) the all-present path is run first to learn the asserted
+    length, then every pattern of that length."""
     out = {}
     args = [a.arg for a in fn.args.args]
+
+    def one(sign, kind, lenok, nones):
+        ex = Exec(None, sign=sign, lenok=lenok, tuple_len=tuple_len, nones=nones)
+        wv = WholeVal(kind)
+        if kind == "tup" and tuple_len is not None:
+            wv.fill(tuple_len, nones)
+        ex.env[args[1]] = Name("k")
+        if need_val_arg:
+            ex.env[args[2]] = wv
+        else:
+            ex.val = wv
+        return (_exec_with_last(ex, fn), ex)
+
     for sign in (1, -1):
         for kind in kinds:
-            for lenok in ((True, False) if kind == "tup" else (True,)):
-                ex = Exec(None, sign=sign, lenok=lenok, tuple_len=tuple_len)
-                wv = WholeVal(kind)
-                if kind == "tup" and tuple_len is not None:
-                    if not lenok:
-                        continue
-                    wv.elems = ["x%d" % i for i in range(tuple_len)]
-                ex.env[args[1]] = Name("k")
-                if need_val_arg:
-                    ex.env[args[2]] = wv
-                else:
-                    ex.val = wv
-                outcome = _exec_with_last(ex, fn)
-                out[(sign, kind, lenok)] = (outcome, ex)
+            if kind != "tup":
+                out[(sign, kind, True, None)] = one(sign, kind, True, None)
+                continue
+            if tuple_len is None:
+                first = one(sign, "tup", True, None)
+                n = first[1].asserted_len
+                out[(sign, "tup", False, None)] = one(sign, "tup", False, None)
+                if n is None:
+                    out[(sign, "tup", True, None)] = first
+                    continue
+            else:
+                n = tuple_len
+            for nones in _none_patterns(n):
+                out[(sign, "tup", True, nones)] = one(sign, "tup", True, nones)
     return out
 
 
@@ -385,43 +433,55 @@ def _val_cases(paths, mode, tuple_len):
     """Lean match arms `| sign, pattern => Except Err Val` from the path outcomes"""
     arms = []
     keyterms = set()
-    for kind in ("atom", "tup", "list"):
-        for sign in (1, -1):
-            outcome, ex = paths[(sign, kind, True)]
-            if mode == "set":
-                if outcome[0] != "store":
-                    raise TranslationError("__setitem__: path (sign %+d, %s) does not end in a store: %r" % (sign, kind, outcome[:1]))
-                keyterms.add(outcome[1])
-                term = outcome[2]
-                n = ex.asserted_len
-            else:
-                if outcome[0] != "return" or not isinstance(outcome[1], (ValT, WholeVal)):
-                    raise TranslationError("__getitem__: path (sign %+d, %s) does not return a value" % (sign, kind))
-                reads = [e for e in ex.effects if e[0] == "read"]
-                if len(reads) != 1:
-                    raise TranslationError("__getitem__: expected exactly one read of the private dict")
-                keyterms.add(reads[0][1])
-                v = outcome[1]
-                term = v.lean if isinstance(v, ValT) else v.lean()
-                n = tuple_len
-            if kind == "tup":
-                if n is None:
-                    pat = ".tup xs"
-                else:
-                    pat = ".tup [%s]" % ", ".join("x%d" % i for i in range(n))
-            else:
-                pat = PAT[kind]
-            arms.append("  | %s, %s => .ok %s" % (SIGN[sign], pat, term))
+
+    def arm(sign, kind, nones, n):
+        outcome, ex = paths[(sign, kind, True, nones)]
+        if mode == "set":
+            if outcome[0] != "store":
+                raise TranslationError("__setitem__: path (sign %+d, %s) does not end in a store: %r" % (sign, kind, outcome[:1]))
+            keyterms.add(outcome[1])
+            term = outcome[2]
+        else:
+            if outcome[0] != "return" or not isinstance(outcome[1], (ValT, WholeVal)):
+                raise TranslationError("__getitem__: path (sign %+d, %s) does not return a value" % (sign, kind))
+            reads = [e for e in ex.effects if e[0] == "read"]
+            if len(reads) != 1:
+                raise TranslationError("__getitem__: expected exactly one read of the private dict")
+            keyterms.add(reads[0][1])
+            v = outcome[1]
+            term = v.lean if isinstance(v, ValT) else v.lean()
         if kind == "tup":
-            if mode == "set":
-                bad = {paths[(s, "tup", False)][0] for s in (1, -1)}
-                n = paths[(1, "tup", True)][1].asserted_len
-                if n is not None:
-                    if bad != {("error", "assertion")}:
-                        raise TranslationError("__setitem__: tuples of another length are not rejected on every path")
-                    arms.append("  | _, .tup _ => .error .assertion")
-            elif tuple_len is not None:
-                arms.append("  | _, .tup _ => .error .assertion  -- unreachable: __setitem__ stores %d-tuples only" % tuple_len)
+            if n is None:
+                pat = ".tup xs"
+            else:
+                pat = ".tup [%s]" % ", ".join("none" if nones[i] else "some x%d" % i for i in range(n))
+        else:
+            pat = PAT[kind]
+        arms.append("  | %s, %s => .ok %s" % (SIGN[sign], pat, term))
+
+    for kind in ("atom", "tup", "list"):
+        if kind != "tup":
+            for sign in (1, -1):
+                arm(sign, kind, None, None)
+            continue
+        if mode == "set":
+            ns = {paths[(s, "tup", False, None)][1].asserted_len for s in (1, -1)}
+            if len(ns) != 1:
+                raise TranslationError("__setitem__: the asserted tuple length depends on the sign")
+            n = ns.pop()
+        else:
+            n = tuple_len
+        for sign in (1, -1):
+            for nones in (_none_patterns(n) if n is not None else [None]):
+                arm(sign, "tup", nones, n)
+        if mode == "set":
+            if n is not None:
+                bad = {paths[(s, "tup", False, None)][0] for s in (1, -1)}
+                if bad != {("error", "assertion")}:
+                    raise TranslationError("__setitem__: tuples of another length are not rejected on every path")
+                arms.append("  | _, .tup _ => .error .assertion")
+        elif tuple_len is not None:
+            arms.append("  | _, .tup _ => .error .assertion  -- unreachable: __setitem__ stores %d-tuples only" % tuple_len)
     if len(keyterms) != 1:
         raise TranslationError("paths use different dictionary keys: %r" % sorted(keyterms))
     return "\n".join(arms), keyterms.pop()
@@ -463,7 +523,7 @@ def translate(path):
 
     def setitem():
         paths = _run_paths(ms["__setitem__"], ("atom", "tup", "list"))
-        tuple_len[0] = paths[(1, "tup", True)][1].asserted_len
+        tuple_len[0] = paths[(1, "tup", False, None)][1].asserted_len
         return _val_cases(paths, "set", None)
 
     piece("__setitem__", setitem)
@@ -472,9 +532,6 @@ def translate(path):
         if "__setitem__" not in pieces:
             raise TranslationError("needs the tuple length asserted by __setitem__")
         paths = _run_paths(ms["__getitem__"], ("atom", "tup", "list"), tuple_len=tuple_len[0], need_val_arg=False)
-        # with a known tuple length only lenok paths exist
-        for s in (1, -1):
-            paths.setdefault((s, "tup", True), paths.get((s, "tup", True)))
         return _val_cases(paths, "get", tuple_len[0])
 
     piece("__getitem__", getitem)
@@ -633,7 +690,7 @@ theorem setValGen_eq (s : Sign) (v : Val) :
   cases s <;> cases v with
   | atom x => rfl
   | list xs => rfl
-  | tup xs => rcases xs with _ | ⟨x0, _ | ⟨x1, _ | ⟨x2, rest⟩⟩⟩ <;> rfl
+  | tup xs => rcases xs with _ | ⟨_ | x0, _ | ⟨_ | x1, _ | ⟨x2, rest⟩⟩⟩ <;> rfl
 
 theorem setGen_eq_model (r : Rel) (a : ADict Val) (k : VName) (v : Val) :
     setGen r a k v = ADict.set r a k v := by
@@ -658,7 +715,7 @@ theorem getValGen_eq (s : Sign) (v : Val) (h : ok v = true) : getValGen s v = .o
   | atom x => rfl
   | list xs => rfl
   | tup xs =>
-    rcases xs with _ | ⟨x0, _ | ⟨x1, _ | ⟨x2, rest⟩⟩⟩
+    rcases xs with _ | ⟨_ | x0, _ | ⟨_ | x1, _ | ⟨x2, rest⟩⟩⟩
     all_goals first | rfl | (simp [NegVal.ok, Val.ok] at h)
 
 /-- under the representation invariant (stored tuples are pairs, as `__setitem__` guarantees) -/
